@@ -137,6 +137,38 @@ func c27Body(p c27Params) func() {
 				}
 			})
 		}
+		if strings.Contains(p.Script, "D") {
+			// the application handles its notifications and makes its calls in one goroutine, over an
+			// unbuffered channel: while it deals with one notification the next one is waiting to be handed over
+			run(func() {
+				own := make(chan *opcua.PublishNotificationData)
+				s, err := c.Subscribe(ctx, newParams(), own)
+				note("D.subscribe", err)
+				if err != nil {
+					return
+				}
+				_, err = s.Monitor(ctx, ua.TimestampsToReturnBoth, opcua.NewMonitoredItemCreateRequestWithDefaults(e.nodeID(0), ua.AttributeIDValue, 77))
+				note("D.monitor", err)
+				if err == nil {
+					for i := int32(1); i <= 3; i++ {
+						e.ns.SetAttribute(e.nodeID(0), ua.AttributeIDValue, server.DataValueFromValue(1000+i))
+						e.ns.ChangeNotification(e.nodeID(0))
+						select {
+						case <-own:
+						case <-time.After(5 * time.Second):
+						}
+						time.Sleep(500 * time.Millisecond) // dealing with it
+					}
+					note("D.ids", nil)
+					_ = c.SubscriptionIDs()
+				}
+				note("D.cancel", s.Cancel(ctx))
+				go func() { // whatever was still on its way is taken off the channel
+					for range own {
+					}
+				}()
+			})
+		}
 		wg.Wait()
 		vrt.EndWindow()
 		obs.apiDone = true
@@ -228,7 +260,7 @@ func c27Scenarios(thorough bool) []driver.Scenario {
 		})
 	}
 	// fault positions: default schedule, one reset at every client network operation of the window
-	for _, sc := range []string{"A", "B", "C", "AB"} {
+	for _, sc := range []string{"A", "B", "C", "AB", "D"} {
 		add(c27Params{Script: sc}, -1)
 		for at := 1; at <= 24; at++ {
 			add(c27Params{Script: sc, FaultAt: at}, -1)
@@ -236,6 +268,7 @@ func c27Scenarios(thorough bool) []driver.Scenario {
 	}
 	// schedules
 	b := 1
+	add(c27Params{Script: "D", Delay: true}, b)
 	add(c27Params{Script: "AB", Delay: true}, b)
 	add(c27Params{Script: "C", Delay: true}, b)
 	if thorough {
